@@ -47,6 +47,13 @@ def gen_cases(tier, seed):
                         if tier == 'quick' and di in (1,) and sub not in (-1, 0, 1, 127, 128):
                             continue
                         yield Case(1701, [sid, sub, spr, 0 if d is None else 1, ov], [d or b''], 'req.get_payload')
+        # the payload of a Request object is a function of the object: asking for it once with an explicit override must not
+        # change what it gives the next time (the client sends one object several times, inside and outside suppress blocks)
+        for sub in (-1, 0, 1, 127):
+            for spr in (0, 1):
+                for ov in (-1, 0, 1):
+                    for prev in (0, 1):
+                        yield Case(1701, [sid, sub, spr, 1, ov, prev], [b'\x01\x02'], 'req.get_payload after an earlier override on the same object')
         for code in range(-1, 258):
             for d in DATAS:
                 yield Case(1703, [sid, code, 0 if d is None else 1], [d or b''], 'resp.get_payload')
@@ -98,12 +105,17 @@ def impl(c):
     from udsoncan.BaseService import BaseService
     e = c.entry
     if e == 1701:
-        sid, sub, spr, hasd, ov = c.ints
+        sid, sub, spr, hasd, ov = c.ints[:5]
         svc = _svc.get(sid) if sid >= 0 else None
         if sid >= 0 and svc is None:
             raise RuntimeError('unknown sid in case')
         try:
             r = Request(svc, None if sub < 0 else sub, bool(spr), c.blobs[0] if hasd else None)
+            if len(c.ints) > 5:
+                try:
+                    r.get_payload(suppress_positive_response=bool(c.ints[5]))
+                except Exception:
+                    pass
             p = r.get_payload() if ov < 0 else r.get_payload(suppress_positive_response=bool(ov))
             return [0] + enc_bytes(p)
         except Exception as ex:
@@ -146,7 +158,7 @@ def oracle(c, r):
     from udsoncan import Request, Response
     e = c.entry
     if e == 1701:
-        sid, sub, spr, hasd, ov = c.ints
+        sid, sub, spr, hasd, ov = c.ints[:5]
         svc = _svc.get(sid) if sid >= 0 else None
         if svc is None or ov >= 0:
             return None
@@ -157,7 +169,13 @@ def oracle(c, r):
             return None
         data = c.blobs[0] if hasd else None
         try:
-            q = Request.from_payload(Request(svc, None if sub < 0 else sub, bool(spr), data).get_payload())
+            obj = Request(svc, None if sub < 0 else sub, bool(spr), data)
+            if len(c.ints) > 5:      # the object has been asked for its payload before, with an explicit override
+                try:
+                    obj.get_payload(suppress_positive_response=bool(c.ints[5]))
+                except ValueError:
+                    pass             # services without a subfunction refuse the override
+            q = Request.from_payload(obj.get_payload())
         except Exception as ex:
             return ('req-roundtrip-raises', 'Request round trip raised %s for sid=%#x sub=%s' % (type(ex).__name__, sid, sub))
         want = (svc, sub if use_sub else None, bool(spr), data if data else None)
